@@ -301,11 +301,10 @@ _CACHE = {}
 
 
 def analysis(ctx) -> Analysis:
-    a = _CACHE.get(id(ctx))
+    a = getattr(ctx, "_path_analysis", None)      # cached on the context itself (object ids are reused)
     if a is None:
-        _CACHE.clear()
         a = Analysis(ctx, PathDomain())
-        _CACHE[id(ctx)] = a
+        ctx._path_analysis = a
         ctx.note("path provenance: %d functions, fixed point after %d rounds" % (len(a.funcs), a.rounds))
     return a
 
